@@ -292,7 +292,7 @@ class Program:
     def fold(self, e: Optional[ast.expr], m: ModuleInfo, c: Optional[ClassInfo] = None,
              env: Optional[Dict[str, Any]] = None, depth: int = 0) -> Any:
         """Fold an expression to a Python value (int/str/bytes/bool/tuple/list/dict) or UNKNOWN."""
-        if e is None or depth > 12:
+        if e is None or depth > 40:
             return UNKNOWN
         F = lambda x, mm=m, cc=c: self.fold(x, mm, cc, env, depth + 1)  # noqa: E731
         if isinstance(e, ast.Constant):
